@@ -135,3 +135,8 @@ def run(ctx):
                  'a decoder that does not know which parities are erased solves with a zero-filled placeholder')
     xorrules.reconstruct_fallback_rule(P, r)
     r.require_min(2)
+    r = ctx.rule('R05i', 'bitmaps assembled from an index list in a loop accumulate (|=), they are not overwritten',
+                 'with "=" only the last listed element is rebuilt / counted: success with stale buffers for two or more erasures')
+    from . import shared as _sh
+    _sh.rule_bitmap_accumulation(ctx, P, r)
+    r.require_min(1)
